@@ -20,6 +20,7 @@ package yang
 
 import (
 	"fmt"
+	"sort"
 	"sync"
 )
 
@@ -365,6 +366,15 @@ func (ms *Modules) Process() []error {
 	for _, m := range ms.SubModules {
 		mods = append(mods, m)
 	}
+	// Visit the modules in a fixed order, not in map order: when two
+	// augments collide, which one is applied and which one is reported
+	// must not change from run to run.
+	sort.SliceStable(mods, func(i, j int) bool {
+		if mods[i].Kind() != mods[j].Kind() {
+			return mods[i].Kind() < mods[j].Kind()
+		}
+		return mods[i].FullName() < mods[j].FullName()
+	})
 	for len(mods) > 0 {
 		var processed int
 		for i := 0; i < len(mods); {
@@ -415,7 +425,14 @@ func (ms *Modules) Process() []error {
 
 	dvP := map[string]bool{} // cache the modules we've handled since we have both modname and modname@revision-date
 	for _, devmods := range []map[string]*Module{ms.Modules, ms.SubModules} {
-		for _, m := range devmods {
+		// Likewise apply the deviations module by module in a fixed order.
+		names := make([]string, 0, len(devmods))
+		for name := range devmods {
+			names = append(names, name)
+		}
+		sort.Strings(names)
+		for _, name := range names {
+			m := devmods[name]
 			e := ToEntry(m)
 			if !dvP[e.Name] {
 				errs = append(errs, e.ApplyDeviate(ms.ParseOptions.DeviateOptions)...)
